@@ -7,4 +7,4 @@ trap 'rm -rf "$D"' EXIT
 rsync -a --exclude _build --exclude .git /repo/ "$D/"
 ( cd "$D" && patch -p1 -s < "$P" )
 cd "$(dirname "$(readlink -f "$0")")/.."
-for c in "$@"; do VERIF_REPO="$D" VERIF_CACHE_DIR="$D/.verif-cache" ./check "$c" | grep -v "^  [A-Z][0-9]* \|^    " ; echo "exit=${PIPESTATUS[0]}"; done
+for c in "$@"; do VERIF_REPO="$D" VERIF_CACHE_DIR="$D/.verif-cache" VERIF_EVIDENCE_DIR="$D/.verif-evidence" VERIF_REPORT_DIR="$D/.verif-reports" ./check "$c" | grep -v "^  [A-Z][0-9]* \|^    " ; echo "exit=${PIPESTATUS[0]}"; done
